@@ -18,7 +18,7 @@ Print Assumptions C18_kt_constant_in_loop.
 
 Theorem C18_factor_from_ratio :
   forall (NN : Num) (fpow : carrier NN -> carrier NN -> carrier NN) (b : builder NN) (r :
-    carrier NN), b_kt_ratio NN b = Some r -> factor NN (build NN fpow b) = (n1 - r)%num.
+    carrier NN), b_kt_ratio NN b = Some r -> factor NN (build NN fpow b) = nmax n0 (n1 - r)%num.
 Proof. exact OptLoop.C18_factor_from_ratio. Qed.
 Print Assumptions C18_factor_from_ratio.
 
@@ -40,7 +40,7 @@ Print Assumptions C18_factor_from_finish.
 Theorem C18_factor_at_zero_start :
   forall (NN : Num) (fpow : carrier NN -> carrier NN -> carrier NN) (b : builder NN), (n0 <?
     b_kt_start NN b)%num = false -> factor NN (build NN fpow b) = match b_kt_ratio NN b with |
-    Some r => (n1 - r)%num | None => tenth NN end.
+    Some r => nmax n0 (n1 - r)%num | None => tenth NN end.
 Proof. exact OptLoop.C18_factor_at_zero_start. Qed.
 Print Assumptions C18_factor_at_zero_start.
 
